@@ -1,2 +1,120 @@
-(* C01 -- placeholder *)
-From MsiModel Require Import Base Package.
+(* C01 -- Everything written is read back after close and reopen.
+   C01_reachable_roundtrip is the property: for EVERY package reachable from Package::create by any sequence of admissible
+   API calls (Reach.v: insert / update / delete on user tables, create_table, drop_table, stream writes and removals,
+   signature removal, summary changes, code page, flush, reopen -- whatever each call answered), saving and reopening
+   shows the same package type, code page, summary, table map, rows of every table (as values, "" = null) and streams;
+   the flushed state itself already shows them (flush = into_inner = drop in the model: one function, tied to the three
+   real close modes by the correspondence); the reopened package is reachable again and saving it writes nothing.
+   Admissible = values a Rust caller can build, UTF-8 database (representability), no INSERT/UPDATE/DELETE aimed at a
+   catalog table (known finding catalog_dml, witnessed by C01_catalog_dml_refuted).
+   Statements only; every proof is `exact <lemma>` from theories/. *)
+From Coq Require Import Sorting.Sorted Permutation.
+From MsiModel Require Import Base Sexp Value Expr Category Column CodePage Pool Table Container StreamName Propset Summary Query Package PoolProofs TableProofs QueryProofs DbInv CatalogProofs PropsetCodecProofs PackageProofs PkgInv UpdateRefine PkgInv2 InsertRefine DeleteRefine DmlPkgProofs DropTableProofs MiscOpsProofs ReopenProofs CreateTableLemmas CreateTableProofs StreamProofs Reach KnownFindings.
+From MsiGen Require Import GenConsts GenCatalog GenStreamName.
+Open Scope N_scope.
+
+(* the property, for every reachable package *)
+Theorem C01_reachable_roundtrip :
+  forall (prof : profile) (k : pkg),
+         reachable prof k ->
+         exists k1 k2 : pkg,
+           pkg_flush k = Some k1 /\
+           pkg_open prof (k_cont k1) = Ok k2 /\
+           same_obs prof k k2 /\ same_obs prof k k1 /\ reachable prof k2 /\ pkg_flush k2 = Some k2.
+Proof. exact reachable_roundtrip. Qed.
+
+(* every reachable package satisfies the package invariant *)
+Theorem C01_reachable_invariant :
+  forall (prof : profile) (k : pkg), reachable prof k -> PInv3 prof k.
+Proof. exact reachable_inv. Qed.
+
+(* ... and every package satisfying it (incl. opened foreign files that do) round-trips *)
+Theorem C01_invariant_roundtrip :
+  forall (prof : profile) (k : pkg),
+         PInv prof k ->
+         exists k1 k2 : pkg,
+           pkg_flush k = Some k1 /\
+           pkg_open prof (k_cont k1) = Ok k2 /\ same_obs prof k k2 /\ PInv prof k2 /\ k_cont k2 = k_cont k1.
+Proof. exact reopen_roundtrip. Qed.
+
+(* a flush keeps everything observable and clears every pending flag *)
+Theorem C01_flush_spec :
+  forall (prof : profile) (k k1 : pkg),
+         PInv prof k ->
+         pkg_flush k = Some k1 ->
+         PInv prof k1 /\
+         same_obs prof k k1 /\
+         k_pool k1 = pool_mark_unmodified (k_pool k) /\
+         k_fin k1 = false /\ k_sum_mod k1 = false /\ p_mod (k_pool k1) = false.
+Proof. exact flush_spec. Qed.
+
+(* opening a saved state rebuilds exactly its summary, pool and table map *)
+Theorem C01_open_saved :
+  forall (prof : profile) (k : pkg),
+         PInv prof k ->
+         k_fin k = false ->
+         k_sum_mod k = false ->
+         p_mod (k_pool k) = false ->
+         exists k2 : pkg,
+           pkg_open prof (k_cont k) = Ok k2 /\
+           k_cont k2 = k_cont k /\
+           k_type k2 = k_type k /\
+           k_sum k2 = k_sum k /\
+           k_pool k2 = k_pool k /\ k_tabs k2 = k_tabs k /\ k_fin k2 = false /\ k_sum_mod k2 = false.
+Proof. exact open_saved. Qed.
+
+(* save, reopen, save: the second save writes nothing *)
+Theorem C01_idempotent :
+  forall (prof : profile) (k k1 k2 : pkg),
+         PInv prof k ->
+         pkg_flush k = Some k1 -> pkg_open prof (k_cont k1) = Ok k2 -> pkg_flush k2 = Some k2 /\ k_cont k2 = k_cont k1.
+Proof. exact reopen_idempotent. Qed.
+
+(* table stream codec *)
+Theorem C01_rows_codec :
+  forall (prof : profile) (t : table) (rows : list (list vref)),
+         t_cols t <> [] ->
+         Forall (row_ok t) rows ->
+         nlen rows <= MAX_ROWS_READ ->
+         exists bs : bytes,
+           write_rows prof t rows = Ok bs /\ nlen bs = nlen rows * row_size t /\ read_rows t bs = Ok rows.
+Proof. exact rows_roundtrip. Qed.
+
+(* string pool codec (long-string escape, both reference widths) *)
+Theorem C01_pool_codec :
+  forall p : pool,
+         pool_wf p ->
+         p_cp p = cp_utf8 ->
+         exists pb db : bytes,
+           write_pool p = Some pb /\ write_data p = Some db /\ read_pool pb db = Ok (pool_mark_unmodified p).
+Proof. exact pool_roundtrip. Qed.
+
+(* property-set codec *)
+Theorem C01_summary_codec :
+  forall ps : propset, ps_ok ps -> exists b : bytes, ps_write ps = Some b /\ ps_read b = Ok ps.
+Proof. exact ps_roundtrip. Qed.
+
+(* a freshly created package satisfies the invariant *)
+Theorem C01_fresh_package :
+  forall (prof : profile) (t : ptype) (k : pkg), pkg_create prof t = Ok k -> PInv3 prof k.
+Proof. exact create_inv3. Qed.
+
+(* known finding: insert into _Tables is accepted and the saved file no longer opens *)
+Theorem C01_catalog_dml_refuted :
+  exists k0 k1 k2 : pkg,
+           pkg_create Debug Installer = Ok k0 /\
+           pkg_insert Debug k0 TABLES_TABLE_NAME bogus_row = (k1, Ok tt) /\
+           pkg_flush k1 = Some k2 /\ pkg_open Debug (k_cont k2) = Err.
+Proof. exact catalog_dml_breaks_reopen. Qed.
+
+Print Assumptions C01_reachable_roundtrip.
+Print Assumptions C01_reachable_invariant.
+Print Assumptions C01_invariant_roundtrip.
+Print Assumptions C01_flush_spec.
+Print Assumptions C01_open_saved.
+Print Assumptions C01_idempotent.
+Print Assumptions C01_rows_codec.
+Print Assumptions C01_pool_codec.
+Print Assumptions C01_summary_codec.
+Print Assumptions C01_fresh_package.
+Print Assumptions C01_catalog_dml_refuted.
